@@ -34,6 +34,9 @@ package dotenv
 //@ func (*parser).extractVarValue
 //@   nopanic[C01,C18]
 //@   requires lookupFn != nil
+// dotenv grammar: trailing white space of an unquoted value is trimmed with the full Unicode White_Space
+// predicate (the package's own isSpace is a strict subset of it)
+//@   callsite[C18] strings.TrimRightFunc : arg1 == fn("unicode.IsSpace")
 //@   ensures[C18] err == nil ==> len(result.1) <= len(src)
 //@   ensures[C18] err == nil && len(src) >= 1 && (sat(src, 0) == '"' || sat(src, 0) == '\'') ==> len(result.1) < len(src)
 //@   loop 1
